@@ -1,13 +1,15 @@
 /-
-  Lemmas/OptSoundFinal.lean — all passes together, and an executable check of the hypotheses.
+  Lemmas/OptSoundFinal.lean — all passes together, and the link with the executable hypotheses.
 
   * `buildersAll`: the matcher passes provided (OptSoundSquash, OptSoundSkip).
   * `optimize_sound`: C02 for every pass list drawn from the default passes.
-  * `wfCheck`: a Boolean function deciding (a sufficient condition for) `WF`, so that the
-    hypotheses can be evaluated on concrete grammars (`decide +kernel`, or from the driver).
+  * `wfCheck_sound`: `OptS.wfCheck` (OptHyps.lean) decides a sufficient condition for `WF`.
+  * `optimize_sig`: `optimize` keeps names and modifiers and adds at most the rule `SKIP`.
+  * `soi_kept`, `optimize_soiFree`: `optimize` keeps SOI-freeness.
 -/
 import PestModel.Lemmas.OptSoundFusionWS
 import PestModel.Lemmas.OptSoundSkip
+import PestModel.Hyps
 
 set_option linter.unusedVariables false
 
@@ -21,40 +23,27 @@ def Fall : Feat := ⟨true, true⟩
 theorem buildersAll (sg : String → Option (String × Nat)) (g : Grammar) : Builders Fall sg g where
   sqSem := fun _ => squashSem
   skSem := fun _ G => skipSem G
-  sqB := fun hF G hu hinv fa a e he => squashChoice_TR (sg := ⟨sg, fa⟩) G hu hF hinv a e he
-  skB := fun hF G hinv fa a k e hflag he hk => skipPass_TR G hF hflag k e he hk
-  npB := fun hF G i h b' hinv htr => npB_proof hF G i h b' hinv htr
+  sqB := fun hF G hu hinv a e he => squashChoice_TR G hu hF hinv a e he
+  skB := fun hF G hinv a k e hflag he => skipPass_TR G hF hflag k e he
 
-/-- **`Opt.optimize` preserves the meaning of every expression that does not mention `SKIP`** -/
-theorem optimize_sound {g g' : Grammar} (hwf : WF Fall g) (passes : List Opt.Pass)
-    (hp : ∀ p ∈ passes, p ∈ Opt.defaultPasses) (h : Opt.optimize g passes = some g') :
-    (∀ inp e s r, NSR e → s.pos ≤ inp.size → (Conv g inp e s r ↔ Conv g' inp e s r)) ∧ SkipTotal g' :=
-  optimize_sound_of hwf (fusionWS hwf hwf.wsProgress) (npExt_proof hwf) (fun sg => buildersAll sg g) passes
-    (fun p hpm => ⟨hp p hpm, fun _ => rfl, fun _ => rfl⟩) h
+theorem allowedAll {passes : List Opt.Pass} (hp : ∀ p ∈ passes, p ∈ Opt.defaultPasses) :
+    ∀ p ∈ passes, Allowed Fall p :=
+  fun p hpm => ⟨hp p hpm, fun _ => rfl, fun _ => rfl⟩
 
-/-! ### the hypotheses, executable -/
+/-- **`Opt.optimize` preserves the meaning of every expression** (that does not mention `SKIP`, when
+    the grammar does not define it), and any property of rule bodies that the rewrites keep -/
+theorem optimize_sound {g g' : Grammar} (hwf : WF g) (passes : List Opt.Pass)
+    (hp : ∀ p ∈ passes, p ∈ Opt.defaultPasses)
+    {P : Expr → Prop} (hP : Kept Fall P) (hrep : ∀ e, P e → P (.rep e)) (hopt : ∀ alts, P (.optChoice alts true))
+    (hpr : ∀ r ∈ g.rules, P r.body) (h : Opt.optimize g passes = some g') :
+    (∀ inp e s r, (g.lookup "SKIP" = none → NSR e) → s.pos ≤ inp.size →
+      (Conv g inp e s r ↔ Conv g' inp e s r)) ∧ SkipTotal g' ∧ (∀ r ∈ g'.rules, P r.body) :=
+  optimize_sound_of hwf (fusionWS hwf hwf.wsProgress) (fun sg => buildersAll sg g) passes
+    (allowedAll hp) hP hrep hopt hpr h
 
-mutual
-def allNb (p : Expr → Bool) : Expr → Bool
-  | .rule n m sm b => p (.rule n m sm b) && allNb p b
-  | .seq es => p (.seq es) && allNbL p es
-  | .choice es => p (.choice es) && allNbL p es
-  | .opt e => p (.opt e) && allNb p e
-  | .rep e => p (.rep e) && allNb p e
-  | .rep1 e => p (.rep1 e) && allNb p e
-  | .repExact e n => p (.repExact e n) && allNb p e
-  | .repMin e n => p (.repMin e n) && allNb p e
-  | .repMax e n => p (.repMax e n) && allNb p e
-  | .repMinMax e m n => p (.repMinMax e m n) && allNb p e
-  | .andP e => p (.andP e) && allNb p e
-  | .notP e => p (.notP e) && allNb p e
-  | .group e t => p (.group e t) && allNb p e
-  | .push e => p (.push e) && allNb p e
-  | e => p e
-def allNbL (p : Expr → Bool) : List Expr → Bool
-  | [] => true
-  | e :: es => allNb p e && allNbL p es
-end
+theorem kept_true (F : Feat) : Kept F (fun _ => True) := fun _ _ _ _ _ _ _ => trivial
+
+/-! ### the executable hypotheses (OptHyps.lean) are sound -/
 
 mutual
 theorem allNb_sound {p : Expr → Bool} : ∀ (e : Expr), allNb p e = true → AllN (fun x => p x = true) e
@@ -97,30 +86,11 @@ theorem allNbL_sound {p : Expr → Bool} : ∀ (es : List Expr), allNbL p es = t
     simp only [allNbL, Bool.and_eq_true] at h; exact ⟨allNb_sound e h.1, allNbL_sound es h.2⟩
 end
 
-def altOKb : Alt → Bool
-  | .range lo hi => decide (lo ≤ hi)
-  | _ => true
+theorem plainSilentB_sound {m : Nat} (h : plainSilentB m = true) : plainSilent m := by
+  simp only [plainSilentB, Bool.and_eq_true, Bool.not_eq_true'] at h
+  exact ⟨h.1.1.1, h.1.1.2, h.1.2, h.2⟩
 
-/-- `NodeOK`, as a Boolean -/
-def nodeOKb (g : Grammar) (fa : Bool) : Expr → Bool
-  | .rule n m sm b =>
-    (match b with | .rule _ _ _ _ => false | .ident _ _ => false | _ => true) && !hasBit m ATOMIC && !hasBit m COMPOUND && !hasBit m NONATOMIC && !L1.isTriviaName n &&
-    (n == "EOI" || hasBit m SILENT) &&
-    (n != "EOI" || (match b with | .eoiB => true | _ => false)) &&
-    (match b with | .uprop pn => pn == n | _ => true) &&
-    (n != "ANY" || (match b with | .anyB => true | _ => false))
-  | .ident n t =>
-    n != "ANY" && n != "SKIP" &&
-    (match t, sigOf g n with
-     | none, some (nm, md) => !hasBit md SILENT || (ruleAtomic nm md true && (fa || !ruleAtomic nm md false))
-     | _, _ => true)
-  | .choice es => !es.isEmpty
-  | .range a b => decide (a ≤ b)
-  | .optChoice alts star => !star && !alts.isEmpty && alts.all altOKb
-  | _ => true
-
-theorem nodeOKb_sound (g : Grammar) (fa : Bool) (x : Expr) (h : nodeOKb g fa x = true) :
-    NodeOK ⟨sigOf g, fa⟩ x := by
+theorem nodeOKb_sound (g : Grammar) (x : Expr) (h : nodeOKb g x = true) : NodeOK (sigOf g) x := by
   cases x with
   | rule n m sm b =>
     simp only [nodeOKb, Bool.and_eq_true, Bool.not_eq_true', Bool.or_eq_true, beq_iff_eq, bne_iff_ne] at h
@@ -141,18 +111,12 @@ theorem nodeOKb_sound (g : Grammar) (fa : Bool) (x : Expr) (h : nodeOKb g fa x =
       · cases b <;> simp_all
   | ident n t =>
     simp only [nodeOKb, Bool.and_eq_true, bne_iff_ne] at h
-    refine ⟨h.1.1, h.1.2, ?_⟩
-    intro ht nm md hsg hs a hfa
-    subst ht
+    refine ⟨h.1, ?_⟩
+    intro nm md hsg hs
     have h3 := h.2
-    simp only [] at hsg
     rw [hsg] at h3
-    simp only [hs, Bool.not_true, Bool.false_or, Bool.and_eq_true, Bool.or_eq_true, Bool.not_eq_true'] at h3
-    cases a
-    · rcases h3.2 with h4 | h4
-      · exact absurd (hfa h4) (by simp)
-      · exact h4
-    · exact h3.1
+    simp only [hs, Bool.not_true, Bool.false_or] at h3
+    exact plainSilentB_sound h3
   | choice es =>
     simp only [nodeOKb, Bool.not_eq_true', List.isEmpty_eq_false_iff] at h
     exact h
@@ -166,40 +130,19 @@ theorem nodeOKb_sound (g : Grammar) (fa : Bool) (x : Expr) (h : nodeOKb g fa x =
     | _ => trivial
   | _ => trivial
 
-def notPOKb (g : Grammar) : Expr → Bool
-  | .notP x => regG g 100 x
-  | _ => true
-
-theorem notPOKb_sound (g : Grammar) (x : Expr) (h : notPOKb g x = true) : NotPOK g x := by
+theorem nskB_sound (x : Expr) (h : nskB x = true) : NSK x := by
   cases x with
-  | notP y => exact h
+  | ident n t => simp only [nskB, bne_iff_ne] at h; exact h
   | _ => trivial
 
-/-- no empty-string alternative in a `WHITESPACE` that will be fused -/
-def wsProgressB (g : Grammar) : Bool :=
-  match g.lookup "COMMENT", g.lookup "WHITESPACE" with
-  | none, some wr =>
-    match wr.body with
-    | .choice es =>
-      match Opt.squash 1000 es [] with
-      | some alts => alts.all fun | .lit [] _ => false | _ => true
-      | none => true
-    | _ => true
-  | _, _ => true
-
-/-- the executable form of `WF Fall` -/
-def wfCheck (g : Grammar) : Bool :=
-  g.rules.all (fun r => allNb (nodeOKb g (forced r)) r.body) &&
-  g.rules.all (fun r => r.name != "SKIP") &&
-  g.rules.all (fun r => allNb (notPOKb g) r.body) &&
-  wsProgressB g
-
-theorem wfCheck_sound {g : Grammar} (h : wfCheck g = true) : WF Fall g := by
-  simp only [wfCheck, Bool.and_eq_true, List.all_eq_true, bne_iff_ne] at h
+theorem wfCheck_sound {g : Grammar} (h : wfCheck g = true) : WF g := by
+  simp only [wfCheck, Bool.and_eq_true, List.all_eq_true, Option.isNone_iff_eq_none, Bool.or_eq_true] at h
   obtain ⟨⟨⟨h1, h2⟩, h3⟩, h4⟩ := h
-  refine ⟨fun r hr => ?_, h2, fun _ r hr => ?_, ?_⟩
-  · exact AllN.imp (nodeOKb_sound g (forced r)) (allNb_sound _ (h1 r hr))
-  · exact AllN.imp (notPOKb_sound g) (allNb_sound _ (h3 r hr))
+  refine ⟨fun r hr => ?_, h2, fun hns r hr => ?_, ?_⟩
+  · exact AllN.imp (nodeOKb_sound g) (allNb_sound _ (h1 r hr))
+  · rcases h3 with h3 | h3
+    · rw [hns] at h3; exact absurd h3 (by simp)
+    · exact AllN.imp nskB_sound (allNb_sound _ (h3 r hr))
   · intro wr es alts hc hw hb hq s ci hmem
     unfold wsProgressB at h4
     rw [hc, hw] at h4
@@ -208,6 +151,171 @@ theorem wfCheck_sound {g : Grammar} (h : wfCheck g = true) : WF Fall g := by
     intro hs
     subst hs
     simp at this
+
+/-! ### `optimize` keeps names and modifiers and adds at most the rule `SKIP` -/
+
+theorem runStep_sig {g : Grammar} {p : Opt.Pass} :
+    ∀ (d i : Nat) (rules rules' : List Rule), rules.length - i = d → Opt.runStep g p i rules = some rules' →
+      ∀ n, sigOf { g with rules := rules' } n = sigOf { g with rules := rules } n := by
+  intro d
+  induction d with
+  | zero =>
+    intro i rules rules' hd h n
+    rw [Opt.runStep] at h
+    have : ¬ i < rules.length := by omega
+    simp only [this, ↓reduceDIte, Option.some.injEq] at h
+    subst h; rfl
+  | succ d ih =>
+    intro i rules rules' hd h n
+    rw [Opt.runStep] at h
+    have hi : i < rules.length := by omega
+    simp only [hi, ↓reduceDIte] at h
+    by_cases hskip : (rules[i].kind == RuleKind.builtin ||
+        (p.atomicOnly && !Opt.isAtomicRule rules rules[i])) = true
+    · rw [if_pos hskip] at h
+      exact ih (i + 1) rules rules' (by omega) h n
+    · rw [if_neg hskip] at h
+      cases hro : Opt.runOnce g rules p rules[i].body with
+      | none => rw [hro] at h; exact absurd h (by simp)
+      | some b =>
+        rw [hro] at h
+        simp only [] at h
+        rw [ih (i + 1) _ rules' (by simp; omega) h n]
+        exact sigOf_setBody { g with rules := rules } i hi b n
+
+theorem fold_sig {g : Grammar} : ∀ (passes : List Opt.Pass) (rules rules' : List Rule),
+    passes.foldl (fun acc p => acc.bind fun rs => Opt.runStep g p 0 rs) (some rules) = some rules' →
+    ∀ n, sigOf { g with rules := rules' } n = sigOf { g with rules := rules } n := by
+  intro passes
+  induction passes with
+  | nil =>
+    intro rules rules' h n
+    simp only [List.foldl_nil, Option.some.injEq] at h
+    subst h; rfl
+  | cons p rest ih =>
+    intro rules rules' h n
+    simp only [List.foldl_cons, Option.bind_some] at h
+    cases h1 : Opt.runStep g p 0 rules with
+    | none =>
+      rw [h1] at h
+      have : ∀ (l : List Opt.Pass),
+          l.foldl (fun acc p => acc.bind fun rs => Opt.runStep g p 0 rs) (none : Option (List Rule)) = none := by
+        intro l; induction l with
+        | nil => rfl
+        | cons _ _ ih => simpa using ih
+      rw [this] at h
+      exact absurd h (by simp)
+    | some rules1 =>
+      rw [h1] at h
+      rw [ih rules1 rules' h n]
+      exact runStep_sig _ 0 rules rules1 rfl h1 n
+
+theorem optSkip_sig (g : Grammar) (n : String) (hn : n ≠ "SKIP") :
+    sigOf { g with rules := Opt.optimizeSkipRule g g.rules } n = sigOf g n := by
+  rcases optSkip_cases g g.rules with h | ⟨_, cr, _, _, _, h⟩ | ⟨_, wr, es, alts, _, _, _, _, _, _, h⟩
+  · rw [h]
+  · rw [h]; unfold sigOf; rw [← lookup_ext_ne g (.rep cr.body) n hn]; rfl
+  · rw [h]; unfold sigOf; rw [← lookup_ext_ne g (.optChoice alts true) n hn]; rfl
+
+/-- **names and modifiers are kept**: for every name but `SKIP`, the optimized table defines it iff
+    the original does, with the same name and modifier (no hypothesis on the grammar) -/
+theorem optimize_sig {g g' : Grammar} {passes : List Opt.Pass} (h : Opt.optimize g passes = some g')
+    (n : String) (hn : n ≠ "SKIP") :
+    (g'.lookup n).map (fun r => (r.name, r.mod)) = (g.lookup n).map (fun r => (r.name, r.mod)) := by
+  unfold Opt.optimize at h
+  simp only [Option.map_eq_some_iff] at h
+  obtain ⟨rs, hfold, rfl⟩ := h
+  have := fold_sig passes _ rs hfold n
+  unfold sigOf at this
+  rw [this]
+  exact optSkip_sig g n hn
+
+/-! ### `optimize` keeps SOI-freeness -/
+
+theorem soiFreeL_index : ∀ (es : List Expr), soiFreeL es = true ↔ ∀ i (h : i < es.length), soiFree es[i] = true
+  | [] => by simp [soiFreeL]
+  | e :: es => by
+    simp only [soiFreeL, Bool.and_eq_true, soiFreeL_index es]
+    constructor
+    · rintro ⟨h1, h2⟩ i hi
+      cases i with
+      | zero => exact h1
+      | succ i => simpa using h2 i (by simpa using hi)
+    · intro h
+      exact ⟨h 0 (by simp), fun i hi => by
+        have := h (i + 1) (by simp; omega)
+        simpa using this⟩
+
+theorem soiFreeL_replicate {e : Expr} (h : soiFree e = true) : ∀ n, soiFreeL (List.replicate n e) = true
+  | 0 => rfl
+  | n + 1 => by simp [List.replicate, soiFreeL, h, soiFreeL_replicate h n]
+
+theorem soiFreeL_append : ∀ {l1 l2 : List Expr}, soiFreeL l1 = true → soiFreeL l2 = true →
+    soiFreeL (l1 ++ l2) = true
+  | [], _, _, h => h
+  | e :: l1, l2, h1, h2 => by
+    simp only [soiFreeL, Bool.and_eq_true, List.cons_append] at h1 ⊢
+    exact ⟨h1.1, soiFreeL_append h1.2 h2⟩
+
+theorem soi_kept (F : Feat) : Kept F (fun e => soiFree e = true) := by
+  intro G a e e' h hG
+  induction h with
+  | term _ => exact id
+  | ident => exact id
+  | rule => exact id
+  | ruleC _ _ ih => intro h; simp only [soiFree] at h ⊢; exact ih h
+  | @seq es es' hl hh ih =>
+    intro h
+    simp only [soiFree, soiFreeL_index] at h ⊢
+    exact fun i hi => ih i (by omega) hi (h i (by omega))
+  | @choice es es' hl hh ih =>
+    intro h
+    simp only [soiFree, soiFreeL_index] at h ⊢
+    exact fun i hi => ih i (by omega) hi (h i (by omega))
+  | opt _ ih => intro h; simp only [soiFree] at h ⊢; exact ih h
+  | rep _ ih => intro h; simp only [soiFree] at h ⊢; exact ih h
+  | rep1 _ ih => intro h; simp only [soiFree] at h ⊢; exact ih h
+  | repExact _ ih => intro h; simp only [soiFree] at h ⊢; exact ih h
+  | repMin _ ih => intro h; simp only [soiFree] at h ⊢; exact ih h
+  | repMax _ ih => intro h; simp only [soiFree] at h ⊢; exact ih h
+  | repMinMax _ ih => intro h; simp only [soiFree] at h ⊢; exact ih h
+  | andP _ ih => intro h; simp only [soiFree] at h ⊢; exact ih h
+  | notP _ ih => intro h; simp only [soiFree] at h ⊢; exact ih h
+  | group _ ih => intro h; simp only [soiFree] at h ⊢; exact ih h
+  | push _ ih => intro h; simp only [soiFree] at h ⊢; exact ih h
+  | unroll1 _ ih =>
+    intro h; simp only [soiFree] at h
+    simp [soiFree, soiFreeL, ih h]
+  | unroll1g _ ih =>
+    intro h; simp only [soiFree] at h
+    have := ih h
+    simp only [soiFree] at this
+    simp [soiFree, soiFreeL, this]
+  | unrollExact _ ih =>
+    intro h; simp only [soiFree] at h ⊢
+    exact soiFreeL_replicate (ih h) _
+  | unrollMin _ ih =>
+    intro h; simp only [soiFree] at h ⊢
+    exact soiFreeL_append (soiFreeL_replicate (ih h) _) (by simp [soiFreeL, soiFree, ih h])
+  | unrollMax _ ih =>
+    intro h; simp only [soiFree] at h ⊢
+    exact soiFreeL_replicate (by simp [soiFree, ih h]) _
+  | unrollMinMax _ ih =>
+    intro h; simp only [soiFree] at h ⊢
+    exact soiFreeL_append (soiFreeL_replicate (ih h) _) (soiFreeL_replicate (by simp [soiFree, ih h]) _)
+  | inlB _ _ _ ih => intro h; simp only [soiFree] at h; exact ih h
+  | inlS hl _ _ _ ih => intro _; exact ih (hG _ _ hl)
+  | squash _ _ _ _ _ => intro _; rfl
+  | skip _ _ => intro _; rfl
+
+/-- **SOI-freeness is kept** (note: `soiFree` looks through embedded rule objects, so a grammar that
+    uses the built-in `SOI` is not SOI-free before `inline_builtin` either) -/
+theorem optimize_soiFree {g g' : Grammar} (hwf : WF g) {passes : List Opt.Pass}
+    (hp : ∀ p ∈ passes, p ∈ Opt.defaultPasses) (h : Opt.optimize g passes = some g')
+    (hs : soiFreeG g = true) : soiFreeG g' = true := by
+  simp only [soiFreeG, List.all_eq_true] at hs ⊢
+  exact (optimize_sound hwf passes hp (soi_kept Fall) (fun e he => by simpa [soiFree] using he)
+    (fun _ => rfl) hs h).2.2
 
 end OptS
 end Pest
